@@ -99,7 +99,14 @@ def run(ctx):
             ctx.ob("mask-names/%s/bits-declared" % mask, False, str(d["bits"]))
             continue
         # distinct streams => distinct renderings: same pattern of contains() AND same emptiness => equal values
-        same = z3.And(*[(((v1 & b) == b) == ((v2 & b) == b)) for b, _ in tests]) if tests else z3.BoolVal(True)
+        def shown(v, i):
+            # the i-th name is printed iff its bit test holds and, for an `else if` arm, none of the earlier tests of its chain did
+            b = tests[i][0]
+            c = (v & b) == b
+            for pj in d.get("else_of", {}).get(i, []):
+                c = z3.And(c, (v & tests[pj][0]) != tests[pj][0])
+            return c
+        same = z3.And(*[shown(v1, i) == shown(v2, i) for i in range(len(tests))]) if tests else z3.BoolVal(True)
         st, m = q.check([dec(v1), dec(v2), v1 != v2, same], "mask-injective")
         names = [nm for _, nm in tests]
         dup = sorted(set(n for n in names if names.count(n) > 1))
